@@ -156,6 +156,22 @@ class TypeInfer:
                                 if isinstance(tt, ast.Attribute) and tt.attr == name and isinstance(tt.value, ast.Name) and tt.value.id == sn:
                                     return fn, vv
                     return fn, node.value
+        # a constructor split into private steps (`self._init_random(seed)`): the step that sets the field, when __init__ calls it
+        for c in self.prog.mro(ci):
+            inits = getattr(c, 'methods', {}).get('__init__', [])
+            called = set()
+            for i0 in inits:
+                sn0 = self._self_name(i0)
+                for n0 in ast.walk(i0.node):
+                    if isinstance(n0, ast.Call) and isinstance(n0.func, ast.Attribute) and isinstance(n0.func.value, ast.Name) \
+                            and n0.func.value.id == sn0:
+                        called.add(n0.func.attr)
+            for fn, node in self._class_fields.get(c.qualname, {}).get(name, []):
+                if fn.name in called and fn.name.startswith('_') and isinstance(node, ast.Assign) and len(node.targets) == 1 \
+                        and isinstance(node.targets[0], ast.Attribute):
+                    return fn, node.value
+                if fn.name in called and fn.name.startswith('_') and isinstance(node, ast.AnnAssign) and node.value is not None:
+                    return fn, node.value
         return None
 
     def _seed(self, t):
